@@ -755,8 +755,9 @@ func genEcho(r *rand.Rand, class bool) kase {
 var longDigits = regexp.MustCompile(`[0-9]{4,}`)
 
 // malformed stream: arbitrary short byte strings over an alphabet rich in %, \, digits, flags
+// (no '*': bash takes the width from an argument, e.g. 33211 columns of padding; outside the property anyway)
 func genMalformed(r *rand.Rand) kase {
-	alpha := []string{"%", "%", "\\", "0", "1", "5", "8", "9", "-", "+", " ", "#", ".", "*", "s", "b", "c", "d", "i", "u", "o", "x", "X",
+	alpha := []string{"%", "%", "\\", "0", "1", "5", "8", "9", "-", "+", " ", "#", ".", "s", "b", "c", "d", "i", "u", "o", "x", "X",
 		"q", "z", "l", "a", "n", "e", "f", "U", "'", "\"", "?", "\xff", "é", "7", "A", "f"}
 	n := r.IntN(9)
 	f := ""
